@@ -18,6 +18,10 @@ def get_machine(name):
         from .machines.tables import TableMachine
 
         return TableMachine()
+    if name == "package":
+        from .machines.packages import PackageMachine
+
+        return PackageMachine()
     if name == "transform":
         from .machines.transforms import TransformMachine
 
